@@ -28,7 +28,8 @@ def one(d):
         for i in range(1, 19):
             pid = "C%02d" % i
             env = dict(os.environ, ABSY_REPO=dst, ABSY_EVIDENCE_DIR=os.path.join(work, "ev"))
-            r = subprocess.run([os.path.join(HERE, "check"), pid], env=env, stdout=subprocess.PIPE, stderr=subprocess.STDOUT, text=True)
+            # changes that only manifest under a non-default feature set are evaluated with the thorough tier (all configurations)
+            r = subprocess.run([os.path.join(HERE, "check"), pid, "--tier", "thorough" if meta.get("demo_flags") else "quick"], env=env, stdout=subprocess.PIPE, stderr=subprocess.STDOUT, text=True)
             if r.returncode != 0:
                 keys = []
                 for line in r.stdout.splitlines():
